@@ -29,8 +29,10 @@ The read/write loop is `loop`; the function around it (the two `defer`s, the ini
 is a statement list interpreted with an explicit defer stack (`Stmt`, `exec`), so that what an exit tears
 down is computed, not asserted.  `Proxy` is a statement list as well (`PStmt`, `execP`).
 
-Not modelled: the wall-clock values of the deadlines, `SetLinger` on `*net.TCPConn` (the scripted
-connections of the harness are not TCP connections), the global epoch counters of `ProxyStats`.
+Not modelled here: the instants of the deadlines (each `setConnDeadline` is a scripted ok / fail; *when* the
+deadlines expire, and that traffic in either direction keeps both connections alive, is the subject of
+`CJ/Model/RelayClock.lean`), `SetLinger` on `*net.TCPConn` (the scripted connections of the harness are not
+TCP connections), the global epoch counters of `ProxyStats`.
 -/
 namespace CJ.HalfPipe
 
